@@ -192,6 +192,9 @@ let dispatch (fn : string) (args : sx list) : sx =
   | "tail_divisions", [divs] -> of_list of_z (tail_divisions (get_list get_z divs))
   | "concat_divisions", [ds] -> of_opt (of_list of_z) (concat_divisions (get_list (get_list get_z) ds))
   | "truthfulb", [divs; parts] -> of_bool (truthfulb (get_list get_z divs) (get_list (get_list get_z) parts))
+  | "stats_divisions", [l] ->
+      of_opt (of_pair (of_list of_z) (of_list of_nat)) (stats_divisions (get_list (get_pair get_z get_z) l))
+  | "presorted_divisions", [l] -> of_opt (of_list of_z) (presorted_divisions (get_list (get_pair get_z get_z) l))
   | "dnf_extract", [t] -> of_opt (of_list (of_list of_atom)) (extract (get_ptree t))
   | _ -> failwith ("unknown request " ^ fn)
 (*DISPATCH-END*)
